@@ -17,7 +17,8 @@ EXPLANATION = (
     "result of TlsAcceptor::accept; (6) insecure_verifier / set_certificate_verifier / the example.com fallback are dominated by the true "
     "edge of the insecure flag, and the crate has exactly one ServerCertVerifier impl."
     ' cmd-verdict: the verdict cached for the external auth command is ExitStatus::success() or constant false; the cache key is the pair or a struct whose equality compares every field.'
-    ' NoClientAuth is returned by client_auth() only behind the None edge of a value that is None exactly when no client block is configured (decided on the desugared function).')
+    ' NoClientAuth is returned by client_auth() only behind the None edge of a value that is None exactly when no client block is configured (decided on the desugared function).'
+    ' ca-fallback: raw public trust anchors (webpki_roots) are installed only behind the edge on which the `ca` option is None.')
 RULE_TEXT = "instances = dominance queries and call sites listed above"
 TRUSTED = ["rustls certificate validation", "the external auth command's semantics"]
 NOT_DECIDED = ["rustls' validation itself", "timing of cache expiry"]
@@ -100,7 +101,65 @@ def _key_components(fn, l, PASS, key_adt):
     return comps
 
 
+_PUBLIC_ROOTS = re.compile(r"webpki_roots::TLS_SERVER_ROOTS|webpki::trust_anchor::TlsServerTrustAnchors")
+
+
+def rule_ca_fallback(chk, prog, rule="ca-fallback"):
+    """The bundled public web PKI roots are the trust anchors of a connector only when no `ca` is configured.  In every function of
+    the crate that installs raw trust anchors (`RootCertStore::add_server_trust_anchors`, the `webpki_roots::TLS_SERVER_ROOTS` table), that call lies behind the edge on which the `ca` option of the
+    configuration is None (is_none() / is_some() / match / if let / let-else, directly or on a value derived from it through as_ref / map
+    only).  A fallback keyed on anything else -- the loaded list being empty, a load that failed -- trusts every public CA although a
+    private CA was configured."""
+    from ..flow import option_tests, flow_forward
+    from ..inline import desugar_combinators
+    n = 0
+    for f0 in sorted(prog.fns.values(), key=lambda x: x.key):
+        if f0.crate != "redproxy_rs" or f0.j.get("merged_away"):
+            continue
+        uses = []
+        for b in f0.reachable:
+            for st in f0.stmts(b):
+                if st["k"] == "assign" and _PUBLIC_ROOTS.search(str(st["rv"])):
+                    uses.append(b)
+        for c in f0.calls:
+            if any(_PUBLIC_ROOTS.search(str(a)) for a in c.args) or re.search(r"RootCertStore::add_server_trust_anchors$", c.path or ""):
+                uses.append(c.bb)
+        if not uses:
+            continue
+        try:
+            g = desugar_combinators(prog, type(f0), f0)
+        except Exception:
+            g = f0
+        uses = []
+        for b in g.reachable:
+            for st in g.stmts(b):
+                if st["k"] == "assign" and _PUBLIC_ROOTS.search(str(st["rv"])):
+                    uses.append(b)
+        for c in g.calls:
+            if any(_PUBLIC_ROOTS.search(str(a)) for a in c.args) or re.search(r"RootCertStore::add_server_trust_anchors$", c.path or ""):
+                uses.append(c.bb)
+        seeds = [st["lhs"][0] for b in g.reachable for st in g.stmts(b)
+                 if st["k"] == "assign" and len(st["lhs"]) == 1 and st["rv"]["k"] in ("ref", "use") and
+                 "f:ca" in (st["rv"].get("p") or op_place(st["rv"].get("a") or {}) or [])[1:]]
+        derived = set(flow_forward(g, seeds, [r"Option::<T>::(as_ref|as_mut|as_deref|map|cloned|copied|inspect)$"])[0]) | set(seeds)
+        tests = [o for o in option_tests(g) if o["kind"] in ("Option", "?") and
+                 (o["root"] in derived or o["place"][0] in derived or "f:ca" in [str(x) for x in o["place"][1:]])]
+        if uses:
+            n += 1
+            ok = all(any(edge_dominates(g, o["neg"][0], o["neg"][1], ub) for o in tests) for ub in set(uses))
+            chk.instance(rule, "%s:%s" % (g.file, g.line), "%s: the public web PKI roots are installed only when no ca is configured" % g.path, ok,
+                         "%d test(s) of the ca option" % len(tests))
+            if not ok:
+                chk.finding(rule, g.key, "public-roots", "", "%s:%s" % (g.file, g.line),
+                            "%s installs the bundled public web PKI roots on a path that does not prove `ca` is unset (%d test(s) of the ca "
+                            "option, none of whose None edges dominates the fallback): a connector with a configured CA and without "
+                            "`insecure` can end up trusting every public CA" % (g.path, len(tests)))
+    chk.floor(rule, n, 1, "sites that install the bundled public roots")
+
+
+
 def run(chk, prog):
+    rule_ca_fallback(chk, prog)
     # ---------------------------------------------------------------- (1)
     from . import shared as _sh
     hs = _sh.fn_calling(prog, r"auth::AuthData::check$", "listeners/socks.rs")
